@@ -702,8 +702,9 @@ class _(_round_int_contract('n')):
 class _:
     shapes = dict(s='mpf', prec='int')
     result = 'mpf'
-    props = dict(wf=['C01', 'C06'], bits=['C10'])
+    props = dict(wf=['C01', 'C06'], bits=['C10'], value=['C06'])
     all_props = ['C06', 'C01', 'C10']
+    search = 'frac_inputs'
 
     def requires(s, prec, rnd):
         return WF(s) and prec >= 0
@@ -713,6 +714,25 @@ class _:
 
     def ensures_bits(s, prec, rnd, result):
         return prec == 0 or special(result) or result[3] <= prec
+
+    def ensures_value(s, prec, rnd, result):
+        return FracSpec(result, s, prec, rnd)
+
+    ghost = {('return mpf_sub(s, mpf_floor(s), prec, rnd)', 0, 'before'):
+             ['case s[1] == 0', 'case s[2] >= 0', 'case s[0] == 0', 'case prec == 0'],
+             ('return mpf_sub(s, mpf_floor(s), prec, rnd)', 0, 'call:mpf_floor'):
+             ['case g_call_mpf_floor[1] == 0']}
+    # the floor F returned by mpf_floor is the quotient of the signed mantissa by 2**-exp
+    post_hints = ['g_S = (1 - 2 * s[0]) * s[1]',
+                  'g_q = shr(g_S, -s[2])',
+                  'g_r = lowbits(g_S, -s[2])',
+                  'g_F = (1 - 2 * g_call_mpf_floor[0]) * g_call_mpf_floor[1] * pow2(g_call_mpf_floor[2])',
+                  'lemma_pow2_add(g_call_mpf_floor[2], -s[2])',
+                  'lemma_mul_assoc3(g_call_mpf_floor[1], pow2(g_call_mpf_floor[2]), pow2(-s[2]))',
+                  'lemma_div_bounds(g_S, g_q, g_r, pow2(-s[2]), g_F, g_F + 1)',
+                  'lemma_mul_eq(g_q, g_F, pow2(-s[2]))',
+                  'assert s[1] == 0 or s[2] >= 0 or g_call_mpf_floor[1] == 0 or g_S - (1 - 2 * g_call_mpf_floor[0]) '
+                  '* g_call_mpf_floor[1] * pow2(g_call_mpf_floor[2] - s[2]) == g_r']
 
 
 @contract(M + 'to_rational')
@@ -750,6 +770,7 @@ class _:
 
 @contract(M + 'mpf_mod')
 class _:
+    search = 'mod_inputs'
     shapes = dict(s='mpf', t='mpf', prec='int')
     result = 'mpf'
     props = dict(wf=['C01', 'C06'], bits=['C10', 'C06'], value=['C06'])
